@@ -15,6 +15,7 @@ shutil.copy(os.path.join(src, demo), os.path.join(dst, demo))
 sc = "/tmp/sc_" + sid
 subprocess.run(["git", "-C", "/repo", "worktree", "remove", "--force", sc], capture_output=True)
 subprocess.run(["git", "-C", "/repo", "worktree", "add", "-q", "--detach", sc, "HEAD"], check=True)
+prev = json.load(open(os.path.join(dst, "meta.json"))) if os.path.exists(os.path.join(dst, "meta.json")) else {}
 meta = {"seed": sid, "property": pid, "needs": needs, "repo_head": subprocess.run(["git", "-C", "/repo", "rev-parse", "--short", "HEAD"], capture_output=True, text=True).stdout.strip()}
 try:
     env = dict(os.environ, PYTHONPATH=sc)
@@ -39,5 +40,12 @@ try:
                    "pytest -x whole suite on patched tree" if run_tests else "tests not re-run here", "./check against patched tree"]
 finally:
     subprocess.run(["git", "-C", "/repo", "worktree", "remove", "--force", sc], capture_output=True)
+if not run_tests and prev.get("tests_with_patch"):
+    meta["tests_with_patch"] = prev["tests_with_patch"]        # the suite was run on this patch in an earlier confirmation
+if prev.get("check") and prev.get("detected") is False and meta.get("detected"):
+    meta["history"] = prev.get("history", []) + ["initially missed by the check (%s); detected after the contract was strengthened (see DESIGN.md, seeded changes)"
+                                                 % "; ".join(prev["check"].get("lines", [])[-2:])[:300]]
+elif prev.get("history"):
+    meta["history"] = prev["history"]
 json.dump(meta, open(os.path.join(dst, "meta.json"), "w"), indent=1)
 print(json.dumps({k: meta.get(k) for k in ("demo_without_patch", "demo_with_patch", "tests_with_patch", "check", "detected")}, indent=1)[:1800])
